@@ -270,3 +270,20 @@ M("request_encoding_be", ["C14"], "request data big-endian",
   ("j1939/controller_application.py", "        data = [(pgn & 0xFF), ((pgn >> 8) & 0xFF), ((pgn >> 16) & 0xFF)]\n        self._ecu.send_pgn(data_page, (j1939.ParameterGroupNumber.PGN.REQUEST", "        data = [((pgn >> 16) & 0xFF), ((pgn >> 8) & 0xFF), (pgn & 0xFF)]\n        self._ecu.send_pgn(data_page, (j1939.ParameterGroupNumber.PGN.REQUEST"))
 M("request_global_only_first_ca", ["C14"], "global request handled by the first CA only",
   ("j1939/j1939_21.py", "                if ca.message_acceptable(dest_address):\n                    ca._process_request(mid, dest_address, data, timestamp)", "                if ca.message_acceptable(dest_address):\n                    ca._process_request(mid, dest_address, data, timestamp)\n                    break"))
+
+M("filter21_removed", ["C05"], "J1939-21 destination filter removed",
+  ("j1939/j1939_21.py", "                if reject == True:\n                    return\n\n        if pgn_value == ParameterGroupNumber.PGN.ADDRESSCLAIM:", "                if reject == True:\n                    pass\n\n        if pgn_value == ParameterGroupNumber.PGN.ADDRESSCLAIM:"))
+M("filter22_tp_only_after", ["C05"], "J1939-22 destination filter skipped for FD.TP.CM",
+  ("j1939/j1939_22.py", "        if dest_address != ParameterGroupNumber.Address.GLOBAL:\n            if not self.__ecu_is_message_acceptable(dest_address):", "        if dest_address != ParameterGroupNumber.Address.GLOBAL and pgn_value != ParameterGroupNumber.PGN.FD_TP_CM:\n            if not self.__ecu_is_message_acceptable(dest_address):"))
+M("listener_remote_frames_processed", ["C05"], "remote frames are processed",
+  ("j1939/electronic_control_unit.py", "if self.stopped or msg.is_error_frame or msg.is_remote_frame or (msg.is_extended_id == False):", "if self.stopped or msg.is_error_frame or (msg.is_extended_id == False):"))
+M("listener_11bit_processed", ["C05"], "11-bit frames are processed",
+  ("j1939/electronic_control_unit.py", "if self.stopped or msg.is_error_frame or msg.is_remote_frame or (msg.is_extended_id == False):", "if self.stopped or msg.is_error_frame or msg.is_remote_frame:"))
+M("notify_unfiltered_gets_all_ca_msgs", ["C05"], "a CA subscriber receives destination-specific messages of other CAs of its stack",
+  ("j1939/electronic_control_unit.py", "(callable(dic['dev_adr']) and dic['dev_adr'](dest))", "(callable(dic['dev_adr']))"))
+M("ca_acceptable_any_state", ["C05", "C14"], "a CA accepts its preferred address in any claim state",
+  ("j1939/controller_application.py", "        if self.state != j1939.ControllerApplication.State.NORMAL:\n            return False\n        if dest_address == j1939.ParameterGroupNumber.Address.GLOBAL:", "        if self.state != j1939.ControllerApplication.State.NORMAL:\n            return (self._device_address_preferred == dest_address)\n        if dest_address == j1939.ParameterGroupNumber.Address.GLOBAL:"))
+M("int_listener_needs_ca", ["C05"], "an integer ECU listener does not make the stack accept its address",
+  ("j1939/electronic_control_unit.py", "            if dic['dev_adr'] == dest:\n                return True\n        return False", "            if dic['dev_adr'] == dest:\n                return False\n        return False"))
+M("tp21_cts_abort_for_foreign", ["C05"], "J1939-21: TP.CM handled before the destination filter",
+  ("j1939/j1939_21.py", "        # iterate all CAs to check if we have to handle this destination address\n        if dest_address != ParameterGroupNumber.Address.GLOBAL:", "        if pgn_value == ParameterGroupNumber.PGN.TP_CM and data[0] == 17:\n            self._process_tp_cm(mid, dest_address, data, timestamp)\n            return\n        # iterate all CAs to check if we have to handle this destination address\n        if dest_address != ParameterGroupNumber.Address.GLOBAL:"))
